@@ -66,8 +66,9 @@ def run_one(patch, props, tier='quick', check_suite=True):
             return rec
         if check_suite:
             rec['suite_broken'] = suite_ok(wt, scratch)
+        # one verified replay is what this self-test asks for; minimisation quality is not its subject
         env = dict(os.environ, VERIF_REPO=wt, VERIF_EVIDENCE_DIR=os.path.join(scratch, 'ev'),
-                   VERIF_REPLAY_DIR=os.path.join(scratch, 'rp'))
+                   VERIF_REPLAY_DIR=os.path.join(scratch, 'rp'), VERIF_SHRINK_S='25', VERIF_MAX_REPORT='1')
         for p in props:
             r = subprocess.run([os.path.join(VERIF, 'check'), p, '--tier', tier], cwd=VERIF, env=env,
                                capture_output=True, text=True, timeout=7200)
@@ -82,7 +83,8 @@ def run_one(patch, props, tier='quick', check_suite=True):
 
 def main():
     args = sys.argv[1:]
-    only = [a for a in args if not a.startswith('--')]
+    only = [a for i, a in enumerate(args) if not a.startswith('--') and not (i and args[i - 1] == '--keep')
+            and not (i > 1 and args[i - 2] == '--keep')]
     jobs = []
     for f in sorted(glob.glob(os.path.join(HERE, 'mutants', '*.diff'))):
         prop = os.path.basename(f).split('.')[0]
@@ -95,6 +97,17 @@ def main():
         jobs = [j for j in jobs if any(o in j[0] for o in only)]
     report = []
     missed = 0
+    if '--keep' in args:
+        # --keep FILE PROPS: records of an earlier (interrupted) run for the checks named in PROPS are taken over
+        k = args.index('--keep')
+        keep_props = set(args[k + 2].split(','))
+        for rec in json.load(open(args[k + 1])):
+            if set(rec.get('checks', {})) and set(rec['checks']) <= keep_props and 'suite_broken' in rec:
+                report.append(rec)
+                missed += sum(1 for c in rec['checks'].values() if c['rc'] != 1)
+        done = {r['patch'] for r in report}
+        jobs = [j for j in jobs if os.path.relpath(j[0], VERIF) not in done]
+        print('kept %d records, %d patches to run' % (len(report), len(jobs)))
     # the suite runs (one core each) proceed in a small pool beside the checks (which use all cores, one at a time)
     import concurrent.futures as cf
     pool = cf.ThreadPoolExecutor(max_workers=3)
